@@ -601,7 +601,31 @@ def rule_framing(ctx) -> None:
                "a key or string containing U+2028 / U+2029 / U+0085 splits the body, the reader raises (or loads nothing) although baseline and delta are on disk") if raw else "")
 
 
+def rule_pure(ctx) -> None:
+    """reconstruction is a function of (base, delta) alone: the codec keeps no state between calls.  Module-level containers
+    written from its functions, or a memoised helper whose cached list a caller edits in place (`keys.pop()` on the result of a
+    cached path split), make the second application of the same path in one process differ from the first."""
+    from .. import hazards
+    from ..util import module_state_writes
+    mods = [SD, SNAP]
+    n_fn = sum(len(ctx.prog.module(m).funcs) for m in mods)
+    ws = [w for m in [SD] for w in module_state_writes(ctx, m)]
+    for fn, node, name, how in ws:
+        ctx.violation("C07.CODEC", ctx.okey(f"{fn.qual}/codec-keeps-state"), fn.loc(node),
+                      f"{fn.name} {how} the module-level `{name}`: the delta codec carries state from one reconstruction to the next")
+    memo, hits = hazards.memo_shared_mutation(ctx, mods)
+    for caller, node, target in hits:
+        ctx.violation("C07.CODEC", ctx.okey(f"{caller.qual}/edits-memoised-result"), caller.loc(node),
+                      f"`{src(node)[:50]}` edits in place the container returned by the memoised {target.name}(): the cached value is damaged, so the next reconstruction "
+                      "that meets the same path writes to (or deletes from) the wrong place - silently")
+    ctx.floor("C07.CODEC", "functions of the delta codec and the snapshot module", n_fn, 30)
+    ctx.holds("C07.CODEC", "codec/stateless", "clematis/engine/util/snapshot_delta.py",
+              f"{n_fn} functions: {len(ws)} writes to module-level state in the codec, {len(memo)} memoised helpers with a mutable result, {len(hits)} in-place edits of such a result; "
+              + hazards.controls(ctx, "clematis.engine.health", ["memo"]))
+
+
 def run(ctx) -> None:
+    rule_pure(ctx)
     rule_codec(ctx)
     rule_framing(ctx)
     rule_sect(ctx)
